@@ -107,7 +107,10 @@ def run_sessions(ctx, label, sessions, **kw):
             ops = session.alias_ops(ops, f"{label}:{si}")
         if si % 5 == 4:
             cfg = dict(cfg or {}, mt=False)         # every fifth session on an object built with enable_multithread=False
-        out, ws, sock = session.run_impl(cfg, events, ops, **kw)
+        kw2 = kw
+        if si % 7 == 3 and "trace" not in kw:
+            kw2 = dict(kw, trace=True)              # every seventh session with enableTrace(True): logging is not behaviour
+        out, ws, sock = session.run_impl(cfg, events, ops, **kw2)
         lines.append(session.line(cfg, events, ops))
         impls.append(out)
         objs.append((ws, sock))
